@@ -35,7 +35,7 @@ def run(ctx):
     ctx.cov["explorers"] = [c[0] for c in configs]
     nexec = 0
     for cname, cfg in configs:
-        for full in ((False, True) if cname == "dfs" else (True,)):     # the other explorers: coverage pass only
+        for full in ((False, True) if cname == "dfs" else (False,)):    # the other explorers: verdict pass only (see below)
             # first pass: stop at the first error (verdict); second pass: keep exploring after errors (coverage)
             extra = cfg + (["--cfg=model-check/max-errors:-1"] if full else [])
             sel = [i for i in range(len(progs)) if (any(o["end"] == "deadlock" for o in ref[i]) or not full)]
@@ -76,7 +76,10 @@ def run(ctx):
                     ctx.violation("reduction %s (%s): deadlock %s but the reference says a deadlock is %s" %
                                   (red, cname, "reported" if r["deadlock"] else "not reported", "reachable" if can_dl else "unreachable"),
                                   files=files, signature=sig + ":verdict", detail=json.dumps(K.prog_brief(progs[i])))
-                if (full or not can_dl) and refset - got:
+                # full coverage is demanded of an exploration that ran to completion: always without a reachable deadlock; with one,
+                # only for the DFS explorer asked to go on after errors (BeFS and the uniform strategy stop at the first error
+                # whatever model-check/max-errors says: nothing in the property forbids it)
+                if ((full and cname == "dfs") or not can_dl) and refset - got:
                     ctx.violation("reduction %s (%s) completes without reaching %d reference outcome(s)" % (red, cname, len(refset - got)),
                                   files=files, signature=sig + ":missing", detail=json.dumps(K.prog_brief(progs[i])))
     ctx.cov["executions_explored_by_simgrid_mc"] = nexec
